@@ -59,11 +59,6 @@ class Addr:
 
         fmt = "%Y-%m-%d %H:%M:%S"
 
-        # if we already have expiry times, etc then we want to
-        # properly delay our timeout
-
-        oldexpires = self.expires
-
         if gmtexpires.upper() == 'NEVER':
             # FIXME can I just select a date 100 years in the future instead?
             self.expires = None
@@ -71,18 +66,15 @@ class Addr:
             self.expires = datetime.datetime.strptime(gmtexpires, fmt)
         self.created = datetime.datetime.utcnow()
 
+        # (re-)arm the expiry timer from scratch: the new expiry may be
+        # earlier or later than the old one, days away, or NEVER
+        if self.expiry is not None and self.expiry.active():
+            self.expiry.cancel()
+        self.expiry = None
         if self.expires is not None:
-            if oldexpires is None:
-                if self.expires <= self.created:
-                    diff = datetime.timedelta(seconds=0)
-                else:
-                    diff = self.expires - self.created
-                self.expiry = self.map.scheduler.callLater(diff.seconds,
-                                                           self._expire)
-
-            else:
-                diff = self.expires - oldexpires
-                self.expiry.delay(diff.seconds)
+            diff = (self.expires - self.created).total_seconds()
+            self.expiry = self.map.scheduler.callLater(max(0, diff),
+                                                       self._expire)
 
     def _expire(self):
         """
